@@ -567,6 +567,12 @@ func TestC09(t *testing.T) {
 					if wf {
 						acts = append(acts, CAct{Op: "wfail", On: true})
 					}
+					closed := idx%4 == 2
+					if closed {
+						// the owner of the connection calls ClientConn.Close() (shutdown, before a reconnect) while calls are
+						// in flight, THEN the transport's Read fails: the failure must still reach every call
+						acts = append(acts, CAct{Op: "close"})
+					}
 					acts = append(acts, CAct{Op: "failread"})
 					if parked >= 0 {
 						acts = append(acts, CAct{Op: "release", C: parked})
@@ -583,7 +589,8 @@ func TestC09(t *testing.T) {
 						acts = sprinkleTicks(rand.New(rand.NewSource(int64(idx)+*flagSeed)), acts, 3)
 					}
 					sc := clientScenario{Acts: acts, WithStats: idx%5 == 0,
-						Tags: []string{"base:" + b.name, fmt.Sprintf("prefix=%d", p), fmt.Sprintf("writes-fail=%v", wf), "parked:" + park}}
+						Tags: []string{"base:" + b.name, fmt.Sprintf("prefix=%d", p), fmt.Sprintf("writes-fail=%v", wf), "parked:" + park,
+							fmt.Sprintf("closed-before-failure=%v", closed)}}
 					if want(idx) && idx%nsh == shard {
 						runClientScenarioAs(t, idx, "c09", sc, em, "C09Step", nil)
 					}
@@ -697,6 +704,12 @@ func TestC13(t *testing.T) {
 		if idx%4 == 1 {
 			acts = sprinkleTicks(rr, acts, 3)
 			tags = append(tags, "ticks")
+		}
+		if idx%8 == 3 {
+			// the owner calls ClientConn.Close() somewhere: before any call, between the envelopes, before or after the failure
+			pos := rr.Intn(len(acts) + 1)
+			acts = append(acts[:pos:pos], append([]CAct{{Op: "close"}}, acts[pos:]...)...)
+			tags = append(tags, "close")
 		}
 		sc := clientScenario{Acts: acts, WithStats: idx%2 == 0, Tags: append(tags, fmt.Sprintf("len=%d", len(seq)), fmt.Sprintf("stats=%v", idx%2 == 0))}
 		if want(idx) {
